@@ -444,10 +444,15 @@ impl PrometheusExporter {
     pub fn update_from_pool_metrics(&self, metrics: &PoolMetrics) {
         self.pool_active_connections
             .set(metrics.active_connections.load(Ordering::Relaxed) as i64);
-        self.pool_successful_requests
-            .inc_by(metrics.total_successful_requests.load(Ordering::Relaxed));
-        self.pool_failed_requests
-            .inc_by(metrics.total_failed_requests.load(Ordering::Relaxed));
+        // The sources hold running totals: raise each counter by what is new since the last update
+        Self::raise_to(
+            &self.pool_successful_requests,
+            metrics.total_successful_requests.load(Ordering::Relaxed),
+        );
+        Self::raise_to(
+            &self.pool_failed_requests,
+            metrics.total_failed_requests.load(Ordering::Relaxed),
+        );
 
         // Circuit breakers is calculated as activated - recovered
         let active_breakers = metrics.circuit_breakers_activated.load(Ordering::Relaxed)
@@ -458,18 +463,31 @@ impl PrometheusExporter {
     /// Update metrics from streaming metrics
     #[allow(clippy::cast_precision_loss)]
     pub fn update_from_streaming_metrics(&self, metrics: &StreamingMetrics) {
-        self.bytes_downloaded
-            .inc_by(metrics.bytes_downloaded.load(Ordering::Relaxed) as f64);
-        self.bytes_uploaded
-            .inc_by(metrics.bytes_uploaded.load(Ordering::Relaxed) as f64);
-        self.range_requests
-            .inc_by(metrics.range_requests.load(Ordering::Relaxed));
-        self.ranges_coalesced
-            .inc_by(metrics.ranges_coalesced.load(Ordering::Relaxed));
-        self.cdn_failovers
-            .inc_by(metrics.cdn_failovers.load(Ordering::Relaxed));
-        self.retry_attempts
-            .inc_by(metrics.retry_attempts.load(Ordering::Relaxed));
+        // The sources hold running totals: raise each counter by what is new since the last update
+        Self::raise_to_f64(
+            &self.bytes_downloaded,
+            metrics.bytes_downloaded.load(Ordering::Relaxed) as f64,
+        );
+        Self::raise_to_f64(
+            &self.bytes_uploaded,
+            metrics.bytes_uploaded.load(Ordering::Relaxed) as f64,
+        );
+        Self::raise_to(
+            &self.range_requests,
+            metrics.range_requests.load(Ordering::Relaxed),
+        );
+        Self::raise_to(
+            &self.ranges_coalesced,
+            metrics.ranges_coalesced.load(Ordering::Relaxed),
+        );
+        Self::raise_to(
+            &self.cdn_failovers,
+            metrics.cdn_failovers.load(Ordering::Relaxed),
+        );
+        Self::raise_to(
+            &self.retry_attempts,
+            metrics.retry_attempts.load(Ordering::Relaxed),
+        );
         self.current_bandwidth
             .set(metrics.current_bandwidth.load(Ordering::Relaxed) as f64);
         self.memory_usage
@@ -489,10 +507,23 @@ impl PrometheusExporter {
             total_evictions += stats.evictions.load(Ordering::Relaxed);
         }
 
-        self.cache_hits.inc_by(total_hits);
-        self.cache_misses.inc_by(total_misses);
+        Self::raise_to(&self.cache_hits, total_hits);
+        Self::raise_to(&self.cache_misses, total_misses);
         self.cache_size.set(total_size as f64);
-        self.cache_evictions.inc_by(total_evictions);
+        Self::raise_to(&self.cache_evictions, total_evictions);
+    }
+
+    /// Bring a Prometheus counter up to the running total of its source
+    fn raise_to(counter: &IntCounter, total: u64) {
+        counter.inc_by(total.saturating_sub(counter.get()));
+    }
+
+    /// Bring a floating-point Prometheus counter up to the running total of its source
+    fn raise_to_f64(counter: &Counter, total: f64) {
+        let delta = total - counter.get();
+        if delta > 0.0 {
+            counter.inc_by(delta);
+        }
     }
 
     /// Record response time
